@@ -15,7 +15,7 @@ const DIR_NAMES = ['v-show', 'vShow', 'v-html', 'vHtml', 'v-text', 'vText', 'v-m
 const EXPRS = ['x', 'a.b', 'f()', '1', '"s"', '`t${x}`', 'true', 'null', 'undefined', '() => x', 'function () {}', '{ a: 1 }', '{}', '[x]', '[]', 'x ? y : z', 'x = y', 'x, y', 'this', 'this.p', 'a?.b', 'a ?? b', 'new K()', 'await0', '-x', 'typeof x', 'x++', 'class {}', '/re/', 'a[0]', 'a["k"]', 'a[i]', '(x)', 'x!'.slice(0, 1), '$event', '_slot', '_createVNode', 's'];
 const ARRAY_VALUES = ['[x]', '[x, "a"]', '[x, y]', '[x, ["m"]]', '[x, "a", ["m", "n"]]', '[x, y, ["m"]]', '[]', '[,]', '[, "a"]', '[x, , ["m"]]', '[...r]', '[x, ...r]', '[x, "a", [...r]]', '[x, ["a-b", "1x", ""]]', '[x, [1, y]]', '[x, "a", "b"]', '[x, ["m"], "late"]', '[[x]]', '[x, "a", ["m"], 4]', '[f(), g(), ["m"]]', '[a.b, "k"]', '[a[0], ["lazy"]]', '[x, "a-b"]', '[x, "1a", ["q"]]', '[x, ""]'];
 const MODELS_VALUES = ['[[x]]', '[[x, "a"], [y, "b", ["m"]]]', '[]', 'x', '[x]', '[[x], y]', '[[], [x]]', '[[x, ["m"]], [y, z]]', '[...r]', '[[x, "a"], , [y]]', '"str"', '[[a.b, "k"], [c[0]]]'];
-const TEXTS = ['', 'txt', ' a ', '\n  b\n', '&nbsp;', '&amp;&lt;', ' ', 'a\tb', '  \n  ', 'x{"y"}z'.replace(/\{.*\}/, ''), '中文', '🙂', '\\n', "'q'", '"dq"'];
+const TEXTS = ['a\u2028b', '\u2029', 'c\u2028\n d', '', 'txt', ' a ', '\n  b\n', '&nbsp;', '&amp;&lt;', ' ', 'a\tb', '  \n  ', 'x{"y"}z'.replace(/\{.*\}/, ''), '中文', '🙂', '\\n', "'q'", '"dq"'];
 
 function pick(rng, a) { return a[Math.floor(rng() * a.length)]; }
 
@@ -26,8 +26,8 @@ function genAttr(rng, depth) {
   const name = isDir ? pick(rng, DIR_NAMES) : pick(rng, PLAIN_NAMES);
   const v = rng();
   if (v < 0.12) return name;
-  if (v < 0.24) return `${name}="${pick(rng, ['s', '', ' a  b ', 'checkbox', 'radio', 'l1\n  l2', '&quot;', 'x-y'])}"`;
-  if (v < 0.30) return `${name}='${pick(rng, ['q', '"', ''])}'`;
+  if (v < 0.24) return `${name}="${pick(rng, ['s', '', ' a  b ', 'checkbox', 'radio', 'l1\n  l2', '&quot;', 'x-y', 'C:\\', 'a\\nb', '\\u{zz}\\x', 'p\u2028q', '\t', '`${x}`'])}"`;
+  if (v < 0.30) return `${name}='${pick(rng, ['q', '"', '', 'it\\', '\u2029'])}'`;
   if (v < 0.38 && depth > 0) return `${name}=${genElement(rng, depth - 1)}`;
   if (v < 0.42) return `${name}=<></>`;
   if (v < 0.46 && depth > 0) return `${name}={${genElement(rng, depth - 1)}}`;
@@ -99,6 +99,8 @@ export const ODD_FORMS = [
   '<C v-model />', '<C v-model="s" />', '<C v-model={[]} />', '<C v-model={[, "a"]} />', '<input v-model={[]} />', '<input v-model />', '<C v-model=<b/> />', '<C v-model={f()} />', '<input v-model={f()} />', '<C v-model={1} />', '<C v-model={[x, y, z]} />', '<C v-model={[...r]} />',
   '<C v-models />', '<C v-models="s" />', '<C v-models={x} />', '<C v-models={[x]} />', '<C v-models={[[x], , [y]]} />', '<C v-models={[]} />', '<C v-models={[[]]} />', '<C v-models=<b/> />', '<div v-models={[[x]]} />',
   '<C v-slots />', '<C v-slots="s" />', '<C v-slots={f()} />', '<C v-slots={{a: () => 1}}>{{b: () => 2}}</C>', '<div v-slots={s}>t</div>',
+  '/* @jsx h. */\n<div />', '/* @jsx React..createElement */\n<div />', '/* @jsx h.1 */\n<div />', '/* @jsx .h */\n<div />', '/* @jsx h.x.y */\n<></>', '/* @jsx h-x */\n<div />', '/* @jsx h() */\n<div />',
+  '<div title="C:\\" />', "<div other='it\\' />", '<div path="\\u{zz}\\x" v-html="a\\" v-foo="b\\" />', '<div>foo\u2028bar</div>', '<div title="a\u2029b" v-html="x\u2028y" v-foo="p\u2028" />', '<C>{...a}\u2028</C>',
   '/** @jsxImportSource vue */\n<div />', '/** @jsxFrag F */\n<></>', '/* @jsx foo bar */\n<div />', '/* @jsx */\n<div />', '/* @jsx a.b */\n<div />', '// @jsx h\n<div />', '/**\n * @jsx h\n */\n<div />', '/* @jsxRuntime classic */\n<div />', '/* @jsx 1x */\n<i/>',
   '<div {...{}} />', '<div {...null} />', '<div key />', '<div ref="r" />', '<div on />', '<div on="s" />', '<div on={x} nativeOn={y} on={z} />', '<div class class="a" class={b} />',
   '<></>', '<><></></>', '<Fragment />', '<Fragment key={k}>{x}</Fragment>', '<KeepAlive>{x}</KeepAlive>', '<KeepAlive><C /></KeepAlive>',
@@ -107,6 +109,17 @@ export const ODD_FORMS = [
   'x = <C>{x}</C>;', 'let x; x = 1; x = <C>{x}{x}</C>;', 'a = b = <C>{a}</C>;', '({ a } = { a: <C>{a}</C> });', 'a += <C>{a}</C>;',
   '<div v-show />', '<div v-show="s" />', '<div vShow={[x, "arg", ["m"]]} />', '<div v-foo:arg_a_b={[x, "other", ["c"]]} />',
   '<A v-foo:a-b={x} />', '<A v-foo:1={x} />', '<div data-a-b-c="1" aria-x />', '<div a.b="1" />'.replace('a.b', 'ab'),
+];
+
+// TSX modules with legal-but-odd forms on the resolveType path
+export const ODD_TSX = [
+  'import { defineComponent } from "vue";\nexport const C = defineComponent((props: { icon?: object } = { icon: <i /> }) => () => <b />);',
+  'import { defineComponent } from "vue";\nexport const C = defineComponent(function (props: { icon?: object; f?: object } = { icon: <i>{x}</i>, get f() { return <></>; } }) { return () => null; });',
+  'import { defineComponent } from "vue";\nconst d = { icon: 1 };\nexport const C = defineComponent((props: { icon?: object } = { ...d, icon: <A>{f()}</A> }) => () => null);',
+  'import { defineComponent } from "vue";\nexport const C = defineComponent((props: { icon?: object } = { [k]: <i /> }) => () => <A>{g()}</A>);',
+  'import { defineComponent, SetupContext } from "vue";\nexport const C = defineComponent((props: { a?: string } = { a: `t${<i />}` as any }, ctx: SetupContext<{ (e: "x"): void }>) => () => <></>, { inheritAttrs: false });',
+  'import { defineComponent } from "vue";\nexport const C = defineComponent((props: { render?: () => object } = { render: () => <i />, }) => () => props.render!());',
+  'import { defineComponent } from "vue";\nexport const C = defineComponent((props: { n?: number } = { n: (<i /> as any) }) => () => <C2 v-model={props.n!} />);',
 ];
 
 // ---------------------------------------------------------------- G-ADV
